@@ -781,3 +781,21 @@ func (g *Gen) genFloat(p *Prog) {
 		p.Exec(fmt.Sprintf("float %d %d %d", xi, 1+g.intn(300), g.intn(6)))
 	}
 }
+
+// genSqrtEnum: exhaustive sweep of small integers at the precisions where the Newton iteration
+// for 1/sqrt stops with the least slack (the final correction loops do all the work there).
+func (g *Gen) genSqrtEnum(np func() *Prog, n int) {
+	precs := []uint{15, 30}
+	modes := []decimal.RoundingMode{decimal.ToNearestEven, decimal.ToZero, decimal.ToPositiveInf}
+	for _, prec := range precs {
+		for _, mode := range modes {
+			p := np()
+			z := p.Load(Val{Form: 0, Prec: prec, Mode: mode})
+			x := p.Load(Val{Form: 0, Prec: 20})
+			for v := 2; v < 2+n; v++ {
+				p.Exec(fmt.Sprintf("setint64 %d %d", x, v))
+				p.Exec(fmt.Sprintf("sqrt %d %d", z, x))
+			}
+		}
+	}
+}
